@@ -18,6 +18,7 @@ import itertools
 
 from .. import astutil as A
 from ..alg import Closure, Interp, Obj, Poly, PyFunc, Undecided, fn, to_poly
+from ..alg import tensorlib_obj as _tensorlib_obj
 from ..cfg import CFG
 from ..dep import Deps, FlowDeps, depends_on_call
 from ..fwd import calls_to, check_forward
@@ -284,6 +285,7 @@ def run(ctx):
         ctx.violated(r3, mg, "init_pars[index] = val", "fixed parameters do not start (and hence stay) at their fixed value in Minuit", node=mg.node)
 
     _minuit_minimize_history(ctx, r3, repo)
+    _mle_history(ctx, r1, repo)
     _optimizers_interpreted(ctx, r3, repo)
 
     # ------------------------------------------------------------ R4
@@ -505,10 +507,18 @@ def _optimizers_interpreted(ctx, rid, repo):
         inst = Instance(sc)
         inst.attrs.update({"maxiter": at("DEFAULT_MAXITER"), "verbose": False, "tolerance": None, "solver_options": {}})
         solver = PyFunc(lambda a, k: (rec.append((a, k)) or Obj("RESULT")), "minimizer")
-        for lab, opts in (("first fit, maxiter=M1", {"maxiter": at("M1")}), ("second fit, defaults", {}), ("third fit, solver_options ftol", {"solver_options": {"ftol": at("FTOL")}}), ("fourth fit, defaults", {})):
+        caller_bounds = [(at("l0"), at("h0")), (at("l1"), at("h1")), (at("l2"), at("h2"))]  # ONE list object, as a caller reusing its bounds for several fits passes it
+        bounds_before = [[str(to_poly(y)) for y in x] for x in caller_bounds]
+        for lab, opts in (("first fit, maxiter=M1", {"maxiter": at("M1")}), ("second fit, defaults", {}), ("third fit, solver_options ftol", {"solver_options": {"ftol": at("FTOL")}}), ("fourth fit, defaults", {}),
+                          ("fifth fit, method=L-BFGS-B", {"method": "L-BFGS-B"}), ("sixth fit, method=TNC", {"method": "TNC"}), ("seventh fit, defaults", {})):
             x0 = [at("x0"), at("x1"), at("x2")]
-            w.call_method(inst, "_minimize", [solver, Obj("FUNC"), x0], {"do_grad": Obj("DO_GRAD"), "bounds": Obj("BOUNDS"), "fixed_vals": [(c(1), at("v1"))], "options": dict(opts)})
+            w.call_method(inst, "_minimize", [solver, Obj("FUNC"), x0], {"do_grad": Obj("DO_GRAD"), "bounds": caller_bounds, "fixed_vals": [(c(1), at("v1"))], "options": dict(opts)})
             a, k = rec[-1]
+            if [[str(to_poly(y)) for y in x] for x in caller_bounds] != bounds_before:
+                ctx.violated(rid, sc.methods["_minimize"], f"caller's bounds [{lab}]", "the fit writes into the bounds list the caller passed (a fixed parameter's bound is overwritten in place): the next fit that reuses the list is silently confined to the previous fit's fixed value", expected=str(bounds_before), found=str([[str(to_poly(y)) for y in x] for x in caller_bounds]))
+                caller_bounds[:] = [(at("l0"), at("h0")), (at("l1"), at("h1")), (at("l2"), at("h2"))]
+                continue
+            opts = {k_: v_ for k_, v_ in opts.items() if k_ != "method"}
             o = k.get("options") or {}
             want_maxiter = "M1" if "maxiter" in opts else "DEFAULT_MAXITER"
             want_keys = {"maxiter", "disp"} | set(opts.get("solver_options", {}))
@@ -558,6 +568,93 @@ def _optimizers_interpreted(ctx, rid, repo):
                 ctx.holds(rid, f"{OPT}opt_minuit.py::minuit_optimizer._get_minimizer [{lab}]", "start = [v0, i1]; limits = bounds; fixed = [True, False]")
         except errs as e:
             ctx.unrecognised(rid, mc_, f"minuit_optimizer._get_minimizer [{lab}]", f"not interpretable: {type(e).__name__}: {e}")
+
+
+def _mle_history(ctx, rid, repo):
+    """infer/mle.py interpreted as a whole (every function of the module, memoising decorators honoured), four fits in one
+    process on ONE model object whose configuration is changed the documented way between the first and the second."""
+    from ..alg import NotHandled, RaisedInFragment
+    from ..objmodel import World
+    at, c = Poly.atom, Poly.const
+    mod = repo.module(MLE)
+    fit, fpf = mod.funcs.get("fit"), mod.funcs.get("fixed_poi_fit")
+    if fit is None or fpf is None:
+        ctx.unrecognised(rid, mod, "mle", "fit / fixed_poi_fit not found")
+        return
+    errs = (Undecided, KeyError, TypeError, ValueError, IndexError, AttributeError)
+    rec = []
+    cfg = Obj("config", {"poi_index": c(1), "init": [at("si0"), at("si1"), at("si2")], "bounds": [(at("sl0"), at("sh0")), (at("sl1"), at("sh1")), (at("sl2"), at("sh2"))], "fixed": [False, False, True]})
+    pdf = Obj("pdf", {"config": cfg})
+
+    def cfgm(field):
+        def f(recv, a, k):
+            if recv is cfg:
+                return list(cfg.attrs[field])
+            raise NotHandled()
+        return f
+
+    def minimize(recv, a, k):
+        if not (isinstance(recv, Obj) and recv.name == "optimizer"):
+            raise NotHandled()
+        kk = dict(k)
+        for nm, v in zip(("objective", "data", "pdf", "init_pars", "par_bounds", "fixed_vals"), a):
+            kk[nm] = v
+        rec.append(kk)
+        return Obj("FITRESULT")
+
+    try:
+        w = World({"__strict__": True, "get_backend": (lambda tl_, op_: (lambda a, k: (tl_, op_)))(_tensorlib_obj(), Obj("optimizer")), ".minimize": minimize,
+                   ".suggested_init": cfgm("init"), ".suggested_bounds": cfgm("bounds"), ".suggested_fixed": cfgm("fixed")}, module_env={"log": Obj("log"), "functools": Obj("functools")})
+        w.base["_validate_fit_inputs"] = lambda a, k: None  # numeric admissibility of the start point: not part of this rule
+        for q, g in mod.funcs.items():
+            if "." not in q and q not in ("__dir__", "_validate_fit_inputs"):
+                w.add_func(g)
+        data = Obj("data")
+
+        def show(kk):
+            iv = [str(to_poly(x)) for x in kk.get("init_pars", [])]
+            bv = [[str(to_poly(y)) for y in x] for x in kk.get("par_bounds", [])] if isinstance(kk.get("par_bounds"), list) else getattr(kk.get("par_bounds"), "name", "?")
+            fv = [(int(to_poly(a_).const_value()), str(to_poly(b_))) for a_, b_ in (kk.get("fixed_vals") or [])]
+            return iv, bv, fv
+
+        def expect(lab, kk, init, bounds, fixed):
+            iv, bv, fv = show(kk)
+            want_fv = [(j, init[j]) for j, fl in enumerate(fixed) if fl]
+            if kk.get("data") is not data or kk.get("pdf") is not pdf:
+                return f"{lab}: the optimiser does not receive this call's data and model"
+            if iv != init:
+                return f"{lab}: the fit starts from {iv}; the model's configuration (or the caller) says {init}"
+            if bv != bounds:
+                return f"{lab}: the fit is bounded by {bv}; the model's configuration (or the caller) says {bounds}"
+            if fv != want_fv:
+                return f"{lab}: the parameters held constant are {fv}; the model's configuration (or the caller) says {want_fv}"
+            return None
+
+        probs = []
+        w.call_func(fit, [data, pdf], {})
+        probs.append(expect("first fit, defaults", rec[-1], ["si0", "si1", "si2"], [["sl0", "sh0"], ["sl1", "sh1"], ["sl2", "sh2"]], [False, False, True]))
+        # the documented way of changing a model's fit defaults: assign to the parameter sets' suggested_* (same config OBJECT)
+        cfg.attrs["init"] = [at("ni0"), at("ni1"), at("ni2")]
+        cfg.attrs["bounds"] = [(at("nl0"), at("nh0")), (at("nl1"), at("nh1")), (at("nl2"), at("nh2"))]
+        cfg.attrs["fixed"] = [True, False, False]
+        w.call_func(fit, [data, pdf], {})
+        probs.append(expect("second fit on the same model after its suggested init / bounds / fixed flags were changed", rec[-1], ["ni0", "ni1", "ni2"], [["nl0", "nh0"], ["nl1", "nh1"], ["nl2", "nh2"]], [True, False, False]))
+        w.call_func(fpf, [at("POI"), data, pdf], {})
+        probs.append(expect("fixed-POI fit with the model's (changed) defaults", rec[-1], ["ni0", "POI", "ni2"], [["nl0", "nh0"], ["nl1", "nh1"], ["nl2", "nh2"]], [True, True, False]))
+        mine_i, mine_b, mine_f = [at("ui0"), at("ui1"), at("ui2")], [(at("ul0"), at("uh0")), (at("ul1"), at("uh1")), (at("ul2"), at("uh2"))], [False, False, False]
+        w.call_func(fit, [data, pdf, mine_i, mine_b, mine_f], {})
+        probs.append(expect("fit with explicit start values, bounds and an all-False mask", rec[-1], ["ui0", "ui1", "ui2"], [["ul0", "uh0"], ["ul1", "uh1"], ["ul2", "uh2"]], [False, False, False]))
+        probs = [p_ for p_ in probs if p_]
+        if len(rec) != 4:
+            probs.append(f"{len(rec)} minimisations for 4 fits")
+        if probs:
+            ctx.violated(rid, fit, "fits on one model across a configuration change", "a fit does not use the model's CURRENT suggestions (or the caller's arguments): " + probs[0], expected="start values, bounds and fixed parameters of this call", found=f"{len(probs)} deviation(s)")
+        else:
+            ctx.holds(rid, f"{MLE}::fit / fixed_poi_fit [4 fits on one model, configuration changed in between]", "each fit starts from, is bounded by and holds constant what the model currently suggests or the caller passed")
+    except RaisedInFragment as e:
+        ctx.violated(rid, fit, "fits on one model", f"raises {e.exc_name} on valid inputs")
+    except errs as e:
+        ctx.unrecognised(rid, fit, "mle history", f"not interpretable: {type(e).__name__}: {e}")
 
 
 def _minuit_minimize_history(ctx, rid, repo):
